@@ -7,6 +7,7 @@ macros, nesting and extreme addresses are stressors attached to the plan.
 Oracle: the process leaves main by return/exit with status 0 or 1, prints a
 diagnostic when the status is 1, no sanitizer report, inside its budgets.
 """
+import os
 import re
 
 from vlib.core import *
@@ -29,7 +30,8 @@ STRESSORS = [
     ("lowhigh", 3), ("garbage", 8), ("options", 5), ("many-I", 1), ("binfile", 4),
     ("token-mutation", 12), ("long-macro-body", 3), ("long-macro-arg", 3), ("obj-arg", 4),
     ("div-zero", 2), ("deep-include", 2), ("repeat-big", 2), ("string-edge", 4), ("scope", 2),
-    ("addr-top", 1), ("none", 3),
+    ("addr-top", 1), ("none", 3), ("unary-chain", 2), ("int-min-div", 1), ("macro-arg-escapes", 2),
+    ("truncate-instr", 12), ("suffix-chain", 3),
 ]
 
 
@@ -375,6 +377,32 @@ class C16(Engine):
                 add_line(".func f\nx:\n.func g\n.endf\n.endf")
             else:
                 add_line(".func " + "f" * rng.pick([10, 300, 5000]) + "\n.endf")
+        elif kind == "unary-chain":
+            n = rng.pick([3, 255, 256, 257, 5000, 200000])
+            op = rng.pick(["-", "~", "-~", "(-", "+"])
+            tail = ")" * n if op == "(-" else ""
+            add_line(rng.pick([".dw 1 + ", ".db ", ".org ", ".if "]) + op * n + "1" + tail)
+        elif kind == "int-min-div":
+            add_line(".dw " + rng.pick(["0x8000000000000000", "-9223372036854775808", "(1 << 63)", "0x7fffffffffffffff + 1"]) +
+                     rng.pick([" / -1", " % -1", " / (0 - 1)", " * -1", " / 0x8000000000000000"]))
+        elif kind == "macro-arg-escapes":
+            n = rng.pick([100, 509, 510, 511, 512, 1021, 1022, 1023, 3000])
+            q = rng.pick(['"', "'"])
+            add_line(".macro ME(a)\n.db a\n.endm\nME(" + q + "\\" * n + rng.pick([q, "", q + ")"]) + rng.pick([")", ""]))
+        elif kind == "truncate-instr":
+            from engines import c16t
+            ps = c16t.pairs()
+            tcpu, text, cut = ps[rng.below(len(ps))]
+            files[main] = ".%s\n  %s%s" % (tcpu, text[:cut], rng.pick(c16t.ENDINGS))
+            plan["cpu"] = tcpu
+        elif kind == "suffix-chain":
+            if cpu in progs.corpus():
+                text = rng.pick(progs.corpus()[cpu])[0]
+                mn = text.split(" ")[0]
+                rest = text[len(mn):]
+                n = rng.pick([3, 100, 255, 256, 300, 600])
+                sfx = rng.pick([".x", ".", "@", "*", "+", ".w", ".aq", "/", "'", "_"])
+                add_line("  " + mn + sfx * n + rest)
         # "none": plain program
 
     # -- execution + oracle ------------------------------------------------
@@ -384,7 +412,7 @@ class C16(Engine):
         tag = "+".join(sorted(set(plan["stressors"]))) or "none"
         env = dict(plan["env"])
         env["event_ceiling"] = 3000000
-        req = build_request(MODE_ASM, ["naken_asm"] + plan["argv"], files, plan["faults"], env=env, cpu_ms=8000, wall_ms=120000)
+        req = build_request(MODE_ASM, ["naken_asm"] + plan["argv"], files, plan["faults"], env=env, cpu_ms=int(os.environ.get("VERIF_CPU_MS", "8000")), wall_ms=120000)
         o = ex.call(req)
         res.absorb(o)
         res.digest = o.digest()
@@ -397,6 +425,10 @@ class C16(Engine):
             # assembly itself finished: the run is stuck in the byte-wise low..high walk of the
             # listing / output writers (never ends when high_address is 0xffffffff, minutes for GiB spans)
             ck = "hang:after-pass-2:byte-wise-walk-of-the-address-span"
+        if ck is not None and ck.startswith("hang:") and self.legit_long(plan):
+            # a repeat count in the millions is work the source asked for, not a hang
+            res.probe("long_repeat_not_judged")
+            ck = None
         if ck is not None:
             res.viol(ck, how=o.kind(), stderr=o.stderr.decode("latin-1")[:1500], tail=o.text()[-300:],
                      ring=[(SEAMS[s] if s < len(SEAMS) else s, a) for s, a in o.ring][-6:])
@@ -415,6 +447,17 @@ class C16(Engine):
         for s in plan["stressors"]:
             res.probe("stressor:" + s)
         return res
+
+    @staticmethod
+    def legit_long(plan):
+        for text in plan["files"].values():
+            for m in re.finditer(r"\.(?:repeat|resb|resw|dc\.?\w*|align\w*)\s+(0x[0-9a-fA-F]+|\d+)", text):
+                try:
+                    if int(m.group(1), 0) > 200000:
+                        return True
+                except ValueError:
+                    pass
+        return False
 
     def shrink(self, plan):
         import copy
